@@ -231,4 +231,30 @@ example :
         ("1", .node 2 "Block" [("fc", .leaf 3 .linear (some ⟨some .qint8, none⟩)), ("ln", .leaf 4 .layerNorm none)])] := by
   decide
 
+/-! ### T8 — `named_modules()` yields every module object once
+
+`Mod.namedMemo` models the memo of `named_modules()`; when no object occurs twice (the identities met in
+the traversal are pairwise distinct: a *tree*, the quantifier of C08) it yields exactly `Mod.named`, so
+`quantizeLoop` — the loop over what `named_modules()` really yields — is the structural map. -/
+
+theorem C08_memo_is_identity_on_trees (t : Mod) (h : (t.named.map fun pm => pm.2.rootId).Nodup) :
+    t.namedMemo = t.named :=
+  dedupFirst_nodup t.named [] h (by simp)
+
+theorem C08_quantize_loop_refines_tree (a : QuantizeArgs) (t : Mod) (hn : t.namesOk = true)
+    (hi : (t.named.map fun pm => pm.2.rootId).Nodup) : quantizeLoop a t = quantizeTree a t := by
+  unfold quantizeLoop
+  rw [C08_memo_is_identity_on_trees t hi]
+  exact C08_loop_refines_tree a t hn
+
+/-- **Observation outside the quantifier of C08** (module *trees*): a module object reachable along two
+paths (a shared / tied layer) is yielded once, so only the first reference is replaced; the second keeps
+the float module (whose parameters `quantize()` has set to None — its forward then raises). -/
+theorem C08_observation_shared_module_swapped_once :
+    let lin : Mod := .leaf 1 .linear none
+    let t : Mod := .node 0 "Sequential" [("0", lin), ("1", .leaf 2 (.other "ReLU") none), ("2", lin)]
+    let r := quantizeLoop ⟨none, some .qint8, none⟩ t
+    r.at? ["0"] = some (.leaf 1 .linear (some ⟨some .qint8, none⟩)) ∧ r.at? ["2"] = some lin := by
+  decide
+
 end Quanto
